@@ -212,7 +212,7 @@ func c02Doc() xgen.DocOpts {
 
 func TestC02Rapid(t *testing.T) {
 	runRapid(t, uC02, func(rt *rapid.T) {
-		o := c02Doc()
+		o, nsFinish := nsModeFor(rt, c02Doc())
 		shape := xgen.Shape(rt, &o)
 		doc := xgen.Doc(rt, o)
 		ctx := xgen.Context(rt, doc, 5)
@@ -220,8 +220,10 @@ func TestC02Rapid(t *testing.T) {
 		g.ElNames = xgen.ElNames2
 		g.NonFlatConv = !harness.Excluded("conversion-order")
 		g.NonFlatCount = !harness.Excluded("count-duplicates")
+		nsFinish(g, nil)
 		e := g.PredExpr(ctx, 2)
 		l := &harness.Live{Property: "C02", Check: "C02/predicates", Doc: doc, Ctx: ctx, AST: e, Expr: renderDrawn(rt, e), Flavour: flavourOf(rt)}
+		nsFinish(nil, l)
 		if skipKnown(uC02, e) {
 			return
 		}
